@@ -459,7 +459,7 @@ func init() {
 		Required: []string{"calls", "peekrune.valid", "peekrune.invalid", "restore.borrowed", "probes"},
 		Streams: []fw.Stream{
 			{Name: "probes", Quick: 5, Thorough: 5, Run: c12Probes},
-			{Name: "history", Quick: 1000000, Thorough: 30000000, Run: c12Run},
+			{Name: "history", Quick: 1000000, Thorough: 90000000, Run: c12Run},
 		},
 	})
 }
